@@ -365,13 +365,13 @@ fn c08_positions(tier: Tier) -> Vec<Pos> {
     }
     // promotion races for both colours: a pawn one step from promotion with a piece each side
     // (PAWN7 and its flips; five men, so the plain reference is affordable at every depth)
-    let want: u64 = if tier == Tier::Quick { 3_000 } else { 150_000 };
+    let want: u64 = if tier == Tier::Quick { 3_000 } else { 30_000 };
     for p in pawn7_slice(want) {
         out.push(p.flip());
         out.push(p);
     }
     // capture-promotions and blocked pushes on every file, both colours
-    for p in promo_slice(if tier == Tier::Quick { 500 } else { 40_000 }) {
+    for p in promo_slice(if tier == Tier::Quick { 500 } else { 8_000 }) {
         out.push(p.flip());
         out.push(p);
     }
